@@ -19,6 +19,7 @@ def run(ctx):
     E.r_epoch_cmp(prog, rep)
     E.r_epoch_writes(prog, rep)
     E.r_scan_guards(prog, rep)
+    E.r_state_order(prog, rep)
 
 
 from rules.engine_variants import C02 as VARIANTS  # noqa: E402
